@@ -8,6 +8,7 @@ package main
 
 import (
 	"context"
+	"encoding/hex"
 	"encoding/json"
 	"fmt"
 	"os"
@@ -56,6 +57,18 @@ type event struct {
 	Chain uint16 `json:"chain,omitempty"`
 	Tx    string `json:"tx,omitempty"`
 	Sec   int    `json:"sec,omitempty"`
+}
+
+// txBytes: "0x.." is a hex-encoded identifier (artefacts are JSON: raw bytes would not survive), anything else its bytes
+func txBytes(tx string) []byte {
+	if strings.HasPrefix(tx, "0x") {
+		b, err := hex.DecodeString(tx[2:])
+		if err != nil {
+			ev.Broken("bad tx literal %q", tx)
+		}
+		return b
+	}
+	return []byte(tx)
 }
 
 func (e event) String() string {
@@ -201,7 +214,7 @@ func (s *sys) Apply(ei int, hist []int, check bool) {
 			<-ch
 		}
 	case "req":
-		req := &gossipv1.ObservationRequest{ChainId: uint32(e.Chain), TxHash: []byte(e.Tx)}
+		req := &gossipv1.ObservationRequest{ChainId: uint32(e.Chain), TxHash: txBytes(e.Tx)}
 		p := pair{e.Chain, e.Tx}
 		before := s.qlens()
 		capOf, known := s.cfg.Caps[e.Chain]
@@ -367,6 +380,13 @@ func configs() []config {
 			mk(fmt.Sprintf("two-chains-cap2-cap1-phase%d", phase), map[uint16]int{2: 2, 4: 1}, []uint16{2, 4, unknownChain}, []string{"a"}, []int{60, 420, 660, 661, 1080}, phase),
 			mk(fmt.Sprintf("cap0-and-cap1-phase%d", phase), map[uint16]int{255: 0, 2: 1}, []uint16{255, 2}, []string{"a"}, []int{240, 661, 1080}, phase))
 	}
+	// transaction identifiers that differ as byte strings but coincide after padding / truncation to 32 bytes
+	// (1 byte vs the same byte + 00; 33 bytes differing only in the last byte; 32 bytes; empty): each is a
+	// transaction of its own and a first request for it must be forwarded
+	h32 := "0x" + strings.Repeat("11", 31)
+	enc := mk("tx-encodings", map[uint16]int{2: 64}, []uint16{2}, []string{"0xab", "0xab00", h32 + "01", h32 + "0102", h32 + "0103", "0x"}, []int{660}, 0)
+	enc.Depth = 3
+	out = append(out, enc)
 	// long horizon: few events, many steps - histories in which an entry expires, is forwarded again and
 	// interacts with a younger entry over several purge periods
 	lh := mk("long-horizon-two-tx", map[uint16]int{2: 64}, []uint16{2}, []string{"a", "b"}, []int{240, 420}, 0)
